@@ -526,7 +526,6 @@ func runC11(r *Run) {
 			ck.Fail("tickerCollector.Start", "built-in collector not found")
 		} else {
 			r.Analysed(startFn)
-			cb := startFn.Params[2]
 			var clockF *types.Var
 			nCalls := 0
 			fns := append([]*ssa.Function{startFn}, startFn.AnonFuncs...)
@@ -536,15 +535,13 @@ func runC11(r *Run) {
 					if !ok || c.Call.IsInvoke() || len(c.Call.Args) != 1 {
 						return
 					}
-					// the callback: the parameter itself or the free variable bound to it
-					isCB := c.Call.Value == ssa.Value(cb)
-					if ld, isLd := c.Call.Value.(*ssa.UnOp); isLd {
-						if fv, isFV := ld.X.(*ssa.FreeVar); isFV && fv.Name() == cb.Name() {
+					// the callback: a call of a function value taking the time (the parameter f itself, a
+					// free variable bound to it, or the parameter of a goroutine literal it was handed to)
+					isCB := false
+					if c.Call.StaticCallee() == nil {
+						if sig, isSig := c.Call.Value.Type().Underlying().(*types.Signature); isSig && sig.Params().Len() == 1 && isNamedType(sig.Params().At(0).Type(), "time", "Time") {
 							isCB = true
 						}
-					}
-					if fv, isFV := c.Call.Value.(*ssa.FreeVar); isFV && fv.Name() == cb.Name() {
-						isCB = true
 					}
 					if !isCB {
 						return
